@@ -494,6 +494,30 @@ func c02Alphabet(k ref.Kind, l geom.Layout) []c02Op {
 		ref.NewPoint(geom.XYZ, true, ref.CounterFrom(50)),
 		ref.NewPoint(geom.XYM, true, ref.CounterFrom(60)),
 	}
+	setLayouts := []geom.Layout{geom.XY, geom.XYZ, geom.NoLayout}
+	if l == geom.Layout(5) {
+		// the wide collection alphabet (explored to a smaller depth): members in XYZM and in a layout
+		// of five ordinates, nested layout-less collections whose layout is what their members cover
+		// (XYZM reached before a five-ordinate member; XYZ + XYM + five ordinates), a nested
+		// collection without members and one that holds only such a collection (no layout at all)
+		l5 := geom.Layout(5)
+		nest := func(kids ...*ref.G) *ref.G {
+			var ls []geom.Layout
+			for _, k := range kids {
+				ls = append(ls, k.Layout)
+			}
+			return &ref.G{Kind: ref.Collection, Layout: coverLayout(ls), Kids: kids}
+		}
+		members = append(members,
+			ref.NewPoint(geom.XYZM, true, ref.CounterFrom(70)),
+			ref.NewPoint(l5, true, ref.CounterFrom(80)),
+			nest(ref.NewPoint(geom.XYZM, true, ref.CounterFrom(90)), ref.NewPoint(l5, true, ref.CounterFrom(100))),
+			nest(ref.NewPoint(geom.XYZ, true, ref.CounterFrom(110)), ref.NewPoint(geom.XYM, true, ref.CounterFrom(120)), ref.NewLine(ref.LineString, l5, 2, ref.CounterFrom(130))),
+			nest(),
+			nest(nest()),
+		)
+		setLayouts = []geom.Layout{geom.XYZM, l5, geom.NoLayout}
+	}
 	for i, mm := range members {
 		mm := mm
 		ops = append(ops, c02Op{fmt.Sprintf("Push(member%d:%s %s)", i, mm.Kind, mm.Layout), func(s *c02State) string {
@@ -569,7 +593,7 @@ func c02Alphabet(k ref.Kind, l geom.Layout) []c02Op {
 		pushModel(s, members[1])
 		return ""
 	}})
-	for _, fl := range []geom.Layout{geom.XY, geom.XYZ, geom.NoLayout} {
+	for _, fl := range setLayouts {
 		fl := fl
 		ops = append(ops, c02Op{"SetLayout(" + fl.String() + ")", func(s *c02State) string {
 			gc := s.g.(*geom.GeometryCollection)
@@ -844,6 +868,7 @@ func c02Run(c *engine.Ctx) {
 		jobs = append(jobs, job{k, geom.NoLayout, 0, 4})
 	}
 	jobs = append(jobs, job{ref.Collection, geom.NoLayout, 0, depth})
+	jobs = append(jobs, job{ref.Collection, geom.Layout(5), 0, 3}) // the wide collection alphabet, see c02Alphabet
 	var maxDepthDone int64 = int64(depth)
 	fullDepth := depth
 	for _, j := range jobs {
